@@ -3,11 +3,13 @@ import TunnoxModel.Spec.C07
 /-!
 Line protocol for C07 (see harness/c07/main.go):
   (seq|strict) n <N> m <M> cap <C> ops <op>*           model + holds
+  adp n <N> m <M> cap <C> ops <op>*                    the same ops through the adapter's read loops (runAdp, holdsAdp)
   par n <N> m <M> cap <C> ops <op>* (th <op>*)+         holds only (concurrent block, no model line)
   op: A c | H c x t | Q c t | F c | HS c x t | QS c t | K x c | S | O c | B c | X c | R c | U c | T c | P c
       | XF c | RF c | SF | BF c   (X/R/S/B while the cloud-control store fails)
   obs: cl (<conn> <clientID> <auth> <same> | - - - -){M} cn ((<clientID> <auth> | - -) <inS> <inT> <closed>){N}
        la <k> <conn>{k} ct <Count> <Total> <Control> <Tunnel> <Active>
+       alt <len List()> <len ListConnections()> <GetActiveConnections()> (<conn>|-){M} <GetClientIDByConnectionID>{N}
 -/
 namespace Tunnox.Drv.C07
 open Tunnox.C07
@@ -48,7 +50,7 @@ def parseFOps : Nat → List String → Option (List FOp × List String)
              | "A" => some (Op.accept, false) | "F" => some (Op.hsFin, false) | "O" => some (Op.age, false)
              | "B" => some (Op.beat, false) | "X" => some (Op.close, false) | "R" => some (Op.remove, false)
              | "U" => some (Op.unreg, false) | "T" => some (Op.treg, false) | "P" => some (Op.brk, false)
-             | "BF" => some (Op.beat, true) | "XF" => some (Op.close, true) | "RF" => some (Op.remove, true)
+             | "PF" => some (Op.brk, true) | "BF" => some (Op.beat, true) | "XF" => some (Op.close, true) | "RF" => some (Op.remove, true)
              | _ => none) with
       | some (mk, f) => do
         let c ← c.toNat?
@@ -105,7 +107,10 @@ def connStr (r : ConnRes) : String :=
 def obsStr (o : Obs) : String :=
   "cl" ++ String.join (o.cl.map cliStr) ++ " cn" ++ String.join (o.cn.map connStr) ++
   s!" la {o.la.length}" ++ String.join (o.la.map (fun c => s!" {c}")) ++
-  s!" ct {o.count} {o.total} {o.control} {o.tunnel} {o.active}"
+  s!" ct {o.count} {o.total} {o.control} {o.tunnel} {o.active}" ++
+  s!" alt {o.altList} {o.altConns} {o.altActive}" ++
+  String.join (o.ifc.map (fun x => match x with | none => " -" | some c => s!" {c}")) ++
+  String.join (o.gid.map (fun x => s!" {x}"))
 
 def parseCl : Nat → List String → Option (List (Option CliRes) × List String)
   | 0, ts => some ([], ts)
@@ -140,8 +145,15 @@ def parseObs (n m : Nat) : List String → Option Obs
         let (la, r) ← takeN k r
         let la ← natList la
         match r with
-        | ["ct", a, b, c, d, e] => do
-          pure ⟨cl, cn, la, ← a.toNat?, ← b.toNat?, ← c.toNat?, ← d.toNat?, ← e.toNat?⟩
+        | "ct" :: a :: b :: c :: d :: e :: "alt" :: x :: y :: z :: r => do
+          let (ifc, r) ← takeN m r
+          let ifc ← ifc.mapM (fun t => if t == "-" then some none else t.toNat?.map some)
+          let (gid, r) ← takeN n r
+          let gid ← natList gid
+          if !r.isEmpty then none
+          pure { cl := cl, cn := cn, la := la, count := ← a.toNat?, total := ← b.toNat?, control := ← c.toNat?,
+                 tunnel := ← d.toNat?, active := ← e.toNat?, altList := ← x.toNat?, altConns := ← y.toNat?,
+                 altActive := ← z.toNat?, ifc := ifc, gid := gid }
         | _ => none
       | _ => none
     | _ => none
@@ -185,7 +197,9 @@ def runModel (ts : List String) : String :=
   | none =>
   match parseCase ts with
   | some c =>
-    if c.kind == "seq" || c.kind == "strict" then
+    if c.kind == "adp" then
+      if c.threads.isEmpty then obsStr (obsOf (runAdp .repaired (init c.n c.cap) c.fpre) c.m) else "bad-case"
+    else if c.kind == "seq" || c.kind == "strict" then
       if c.threads.isEmpty then obsStr (obsOf (runF .repaired (init c.n c.cap) c.fpre) c.m) else "bad-case"
     else "bad-case"
   | none => "bad-case"
@@ -204,6 +218,7 @@ def runHolds (caseToks obsToks : List String) : String :=
     | some o =>
       if c.kind == "seq" && c.threads.isEmpty then boolStr (holdsF c.n c.m c.cap c.fpre false o)
       else if c.kind == "strict" && c.threads.isEmpty then boolStr (holdsF c.n c.m c.cap c.fpre true o)
+      else if c.kind == "adp" && c.threads.isEmpty then boolStr (holdsAdp c.n c.m c.cap c.fpre o)
       else if c.kind == "par" then boolStr (holdsPar c.n c.m (c.pre ++ c.threads.flatten) o)
       else "bad-case"
   | none => "bad-case"
